@@ -139,7 +139,7 @@ Definition fixed_lines : list str :=
     L "pass";
     L "stack.append(ctx.ghost_variable)";
     L "ctx.ghost_variable = pop(stack, 1, ctx=ctx)";
-    L "parameters += wrapify(stack, pop(arg_stack, 1, ctx=ctx), ctx=ctx)";
+    L "parameters += wrapify(arg_stack, pop(arg_stack, 1, ctx=ctx), ctx=ctx)";
     L "ctx.context_values.pop()";
     L "break";
     L "continue";
